@@ -13,6 +13,7 @@ import itertools
 from vf.xmodel import Schema, Rop, Bound, Outcome, build_api, build_loader, \
     mirror_problems, snapshot
 
+SUPPORTS_REPLAY = True
 SHARDS = {'quick': 16, 'thorough': 64}
 TIMEOUT = {'quick': 1200, 'thorough': 7200}
 MUST_HIT = ['ShadowModel.compare', 'LinkMirror', 'Atomicity.rejected',
